@@ -417,6 +417,48 @@ func c09CLI(c *drv.Ctx) error {
 			return nil
 		}
 	}
+	// the destination's earlier content is no input either: into a fresh file, over a longer
+	// parser left by another grammar, and over its own output, the same bytes arrive
+	longest := ""
+	for k := range jobs {
+		if results[k].exit == 0 && len(results[k].out) > len(longest) {
+			longest = results[k].out
+		}
+	}
+	for i := range cases {
+		if i >= 8 || longest == "" {
+			break
+		}
+		cs := cases[i]
+		v := variantByName(cs.Variant)
+		dest := fmt.Sprintf("out%d.go", i)
+		args := append(v.Args()[1:], "-output", dest, fmt.Sprintf("g%d.peg", i))
+		var outs [3]string
+		var exits [3]int
+		for step := 0; step < 3; step++ {
+			switch step {
+			case 0:
+				_ = os.Remove(filepath.Join(dir, dest))
+			case 1:
+				_ = os.WriteFile(filepath.Join(dir, dest), []byte(longest+strings.Repeat("\n// left over from an earlier, longer parser", 200)+"\n"), 0o644)
+			}
+			exits[step], _, _ = runPeg(bin, dir, "", []string{"GORACE=halt_on_error=1 exitcode=66"}, args...)
+			b, _ := os.ReadFile(filepath.Join(dir, dest))
+			outs[step] = string(b)
+			c.Stats.Eval()
+		}
+		c.Stats.Class("cli_regeneration_over_existing_destination")
+		if exits[0] != 0 {
+			continue // a grammar peg refuses: nothing to compare (decided by C15/C18)
+		}
+		for step := 1; step < 3; step++ {
+			if exits[step] != exits[0] || outs[step] != outs[0] {
+				c.AddViolation(drv.Violation{Property: "C09", Kind: "det-text", What: fmt.Sprintf("peg %s -output FILE writes different bytes depending on what FILE held before (fresh file vs %s): exit %d/%d, %s\n--- grammar text ---\n%s",
+					v.Flags(), []string{"", "a longer earlier parser", "its own earlier output"}[step], exits[0], exits[step], firstDiff([]byte(outs[0]), []byte(outs[step])), cs.Text), Case: cs})
+				return nil
+			}
+		}
+	}
 	return nil
 }
 
